@@ -1505,14 +1505,16 @@ class FoldConstantsPass(ir.passes.InPlacePass):
         first = next(iter(function), None)
         for name in list(body.initializers):
             initializer = body.initializers.pop(name)
-            if initializer.const_value is None or not initializer.uses():
+            if initializer.const_value is None or not (
+                initializer.uses() or initializer.is_graph_output()
+            ):
                 continue
             constant = ir.node("Constant", inputs=[], attributes={"value": initializer.const_value})
             if first is None:
                 function.append(constant)
             else:
                 function.insert_before(first, constant)
-            initializer.replace_all_uses_with(constant.outputs[0])
+            initializer.replace_all_uses_with(constant.outputs[0], replace_graph_outputs=True)
             constant.outputs[0].name = name
             self._modified = True
 
